@@ -8,8 +8,8 @@
 //! Outputs: `cls_<nnn>.v` / `syn_<nnn>.v` case shards for C19/Corr.v, `summary.json`,
 //! `samples.txt`, `oracle_failures.json`.
 mod oracle;
+mod gencontract;
 mod print;
-#[cfg(feature = "source")]
 mod source;
 mod vary;
 
@@ -31,7 +31,13 @@ use cairo_lang_starknet_classes::compiler_version::VersionId;
 use cairo_lang_starknet_classes::contract_class::{ContractClass, ExtractedSierraProgram};
 use vcommon::{Rng, catch, quiet_panics};
 
-pub const TEST_DATA: &str = "/repo/crates/cairo-lang-starknet/test_data";
+/// Root of the tree under test: $VERIF_REPO (set by lib/seedeval.sh for scratch worktrees), else /repo.
+pub fn repo() -> String {
+    std::env::var("VERIF_REPO").ok().filter(|s| !s.is_empty()).unwrap_or_else(|| "/repo".to_string())
+}
+pub fn test_data() -> String {
+    format!("{}/crates/cairo-lang-starknet/test_data", repo())
+}
 
 pub enum Outcome {
     Ok(Box<CasmContractClass>, CairoProgramDebugInfo),
@@ -110,10 +116,14 @@ pub struct Loaded {
     pub cc: ContractClass,
     pub program: Program,
     pub sv: VersionId,
+    /// where the class came from (a JSON file, or a source crate and contract path)
+    pub origin: String,
+    /// the class was produced by the compiler in this run (it must be accepted)
+    pub from_source: bool,
 }
 
 fn load_all() -> Vec<Loaded> {
-    let mut paths: Vec<_> = fs::read_dir(TEST_DATA)
+    let mut paths: Vec<_> = fs::read_dir(test_data())
         .unwrap()
         .map(|e| e.unwrap().path())
         .filter(|p| p.to_str().unwrap().ends_with(".contract_class.json"))
@@ -131,7 +141,7 @@ fn load_all() -> Vec<Loaded> {
             Ok(e) => e,
             Err(_) => continue,
         };
-        res.push(Loaded { name, cc, program: ex.program, sv: ex.sierra_version });
+        res.push(Loaded { name, cc, program: ex.program, sv: ex.sierra_version, origin: p.display().to_string(), from_source: false });
     }
     res
 }
@@ -164,6 +174,189 @@ pub struct Stats {
     pub source_compiled: usize,
     pub source_equals_golden: usize,
     pub source_error: String,
+    pub gen_contracts: usize,
+    pub gen_entry_points: usize,
+    pub gen_l1_handlers: usize,
+    pub gen_stable_recompilations: usize,
+}
+
+/// Classes the compiler of the tree under test produces now: generated contracts (both tiers) and
+/// the contracts of cairo_level_tests (thorough tier).  Each goes through the ContractClass/ABI
+/// checks here and then, as one more class, through everything `class_shard` does (it must be
+/// accepted by `from_contract_class`, all CASM invariants, round trips, re-publication, variations).
+fn source_legs(
+    out_dir: &str,
+    thorough: bool,
+    rng: &mut Rng,
+    loaded: &mut Vec<Loaded>,
+    stats: &mut Stats,
+    failures: &mut Vec<oracle::Failure>,
+    samples: &mut String,
+) {
+    let push = |name: String, origin: String, cc: ContractClass, g: Option<&gencontract::GenContract>,
+                    loaded: &mut Vec<Loaded>, failures: &mut Vec<oracle::Failure>| {
+        match cc.extract_sierra_program(false) {
+            Ok(ex) => {
+                source::check_compiler_output(&name, &origin, &cc, &ex.program, g, failures);
+                loaded.push(Loaded { name, cc, program: ex.program, sv: ex.sierra_version, origin, from_source: true });
+            }
+            Err(e) => failures.push(oracle::Failure {
+                class: name.clone(),
+                variation: "compiler output".into(),
+                why: format!("the class the compiler produced does not extract: {e:?}"),
+                fingerprint: "source-extract".into(),
+                detail: serde_json::json!({"source": origin, "contract": name}),
+            }),
+        }
+    };
+    // ---- generated contracts ----
+    let (n_crates, per_crate) = if thorough { (3, 6) } else { (1, 4) };
+    for c in 0..n_crates {
+        let dir = format!("{}/gen_src/crate_{}", out_dir, c);
+        fs::create_dir_all(&dir).unwrap();
+        let (src, gens) = gencontract::generate(rng, per_crate);
+        fs::write(format!("{dir}/cairo_project.toml"), "[crate_roots]\ngen_contracts = \".\"\n\n[config.global]\nedition = \"2024_07\"\n").unwrap();
+        fs::write(format!("{dir}/lib.cairo"), &src).unwrap();
+        let first = match source::compile_crate(&dir) {
+            Ok(x) => x,
+            Err(e) => {
+                failures.push(oracle::Failure {
+                    class: format!("gen:crate_{c}"),
+                    variation: "compile".into(),
+                    why: format!("the compiler rejects a generated contract crate: {}", e.lines().take(12).collect::<Vec<_>>().join(" | ")),
+                    fingerprint: "gen-compile".into(),
+                    detail: serde_json::json!({"source": dir}),
+                });
+                continue;
+            }
+        };
+        // a second, independent compilation gives the same classes (and hence the same hashes)
+        match source::compile_crate(&dir) {
+            Ok(second) => {
+                for ((n1, c1), (n2, c2)) in first.iter().zip(second.iter()) {
+                    if n1 != n2 || c1 != c2 {
+                        failures.push(oracle::Failure {
+                            class: format!("gen:{n1}"),
+                            variation: "recompile".into(),
+                            why: "two compilations of the same source give different contract classes".into(),
+                            fingerprint: "gen-unstable".into(),
+                            detail: serde_json::json!({"source": dir, "contract": n1}),
+                        });
+                    } else {
+                        // ... and the same compiled class hashes
+                        let h = |c: &ContractClass| -> Option<String> {
+                            let ex = c.extract_sierra_program(false).ok()?;
+                            match run_impl(c, &ex.program, ex.sierra_version, false, usize::MAX) {
+                                Outcome::Ok(casm, _) => vcommon::catch(std::panic::AssertUnwindSafe(|| {
+                                    format!("{:x}/{:x}", casm.compiled_class_hash().to_biguint(), casm.legacy_compiled_class_hash().to_biguint())
+                                }))
+                                .ok(),
+                                _ => None,
+                            }
+                        };
+                        let (h1, h2) = (h(c1), h(c2));
+                        if h1.is_some() && h1 != h2 {
+                            failures.push(oracle::Failure {
+                                class: format!("gen:{n1}"),
+                                variation: "recompile".into(),
+                                why: "two compilations of the same source give different compiled class hashes".into(),
+                                fingerprint: "gen-unstable-hash".into(),
+                                detail: serde_json::json!({"source": dir, "contract": n1}),
+                            });
+                        } else {
+                            stats.gen_stable_recompilations += 1;
+                        }
+                    }
+                }
+            }
+            Err(e) => stats.source_error = e,
+        }
+        if first.len() != gens.len() {
+            failures.push(oracle::Failure {
+                class: format!("gen:crate_{c}"),
+                variation: "compile".into(),
+                why: format!("{} contracts in the source, {} classes compiled", gens.len(), first.len()),
+                fingerprint: "gen-count".into(),
+                detail: serde_json::json!({"source": dir}),
+            });
+        }
+        for (path, cc) in first {
+            let g = gens.iter().find(|g| path.ends_with(&format!("::{}", g.module)));
+            stats.gen_contracts += 1;
+            if let Some(g) = g {
+                stats.gen_entry_points += g.fns.len();
+                stats.gen_l1_handlers += g.fns.iter().filter(|f| f.kind == gencontract::Kind::L1Handler).count();
+                if samples.len() < 3000 {
+                    use std::fmt::Write as _;
+                    writeln!(
+                        samples,
+                        "gen {}: {}",
+                        path,
+                        g.fns.iter().map(|f| format!("{:?} {} [{:?}; {}]", f.kind, f.name, f.body, f.how)).collect::<Vec<_>>().join(", ")
+                    )
+                    .unwrap();
+                }
+                // the builtins each entry point needs, known from the source
+                if let Ok(ex) = cc.extract_sierra_program(false) {
+                    if let Outcome::Ok(casm, _) = run_impl(&cc, &ex.program, ex.sierra_version, false, usize::MAX) {
+                        stats.impl_runs += 1;
+                        stats.ok_runs += 1;
+                        let all = casm
+                            .entry_points_by_type
+                            .external
+                            .iter()
+                            .chain(casm.entry_points_by_type.l1_handler.iter())
+                            .chain(casm.entry_points_by_type.constructor.iter());
+                        let all: Vec<_> = all.collect();
+                        for f in &g.fns {
+                            let sel = f.selector();
+                            match all.iter().find(|e| e.selector == sel) {
+                                Some(e) => {
+                                    for b in f.body.required_builtins() {
+                                        if !e.builtins.iter().any(|x| x == b) {
+                                            failures.push(oracle::Failure {
+                                                class: format!("gen:{path}"),
+                                                variation: "builtins".into(),
+                                                why: format!("entry point `{}` uses {:?} but its builtin list {:?} lacks {}", f.name, f.body, e.builtins, b),
+                                                fingerprint: "gen-builtins".into(),
+                                                detail: serde_json::json!({"source": dir, "contract": path, "function": f.name}),
+                                            });
+                                        }
+                                    }
+                                }
+                                None => failures.push(oracle::Failure {
+                                    class: format!("gen:{path}"),
+                                    variation: "entry points".into(),
+                                    why: format!("function `{}` of the source has no entry point in the compiled class", f.name),
+                                    fingerprint: "gen-missing-entry".into(),
+                                    detail: serde_json::json!({"source": dir, "contract": path, "function": f.name}),
+                                }),
+                            }
+                        }
+                    }
+                }
+            }
+            push(format!("gen:{path}"), format!("{dir}/lib.cairo"), cc, g, loaded, failures);
+        }
+    }
+    // ---- the repo's own contracts, from source ----
+    if thorough {
+        let krate = source::contracts_crate();
+        match source::compile_crate(&krate) {
+            Ok(cs) => {
+                for (path, cc) in cs {
+                    stats.source_compiled += 1;
+                    // informational: does it still equal the checked-in class?
+                    let golden = path.strip_prefix("cairo_level_tests::contracts::").unwrap_or(&path).replace("::", "__");
+                    if loaded.iter().any(|l| l.name == golden && l.cc == cc) {
+                        stats.source_equals_golden += 1;
+                    }
+                    push(format!("src:{path}"), krate.clone(), cc, None, loaded, failures);
+                }
+            }
+            Err(e) => stats.source_error = e,
+        }
+    }
 }
 
 fn main() {
@@ -178,42 +371,8 @@ fn main() {
     let mut failures: Vec<oracle::Failure> = vec![];
     let mut samples = String::new();
 
-    #[allow(unused_mut)]
     let mut loaded = load_all();
-    #[cfg(feature = "source")]
-    if thorough {
-        // the same contracts compiled from their Cairo source by the compiler in /repo now
-        match source::compile_all() {
-            Ok(cs) => {
-                for (path, cc) in cs {
-                    stats.source_compiled += 1;
-                    // informational: does it still equal the checked-in class?
-                    let golden = path.strip_prefix("cairo_level_tests::contracts::").unwrap_or(&path).replace("::", "__");
-                    if let Some(g) = loaded.iter().find(|l| l.name == golden) {
-                        if g.cc == cc {
-                            stats.source_equals_golden += 1;
-                        }
-                    }
-                    match cc.extract_sierra_program(false) {
-                        Ok(ex) => loaded.push(Loaded {
-                            name: format!("src:{}", path),
-                            cc,
-                            program: ex.program,
-                            sv: ex.sierra_version,
-                        }),
-                        Err(e) => failures.push(oracle::Failure {
-                            class: format!("src:{}", path),
-                            variation: "extract".into(),
-                            why: format!("the class the compiler produced does not extract: {e:?}"),
-                            fingerprint: "source-extract".into(),
-                            detail: serde_json::json!({"crate": source::CONTRACTS_CRATE, "contract": path}),
-                        }),
-                    }
-                }
-            }
-            Err(e) => stats.source_error = e,
-        }
-    }
+    source_legs(&out_dir, thorough, &mut rng, &mut loaded, &mut stats, &mut failures, &mut samples);
     stats.classes = loaded.len();
     for (k, l) in loaded.iter().enumerate() {
         let shard =
@@ -237,7 +396,7 @@ fn main() {
          \"panic_runs\": {}, \"oracle_checked_results\": {}, \"seg_cases\": {}, \"seg_ok\": {}, \"seg_err\": {}, \
          \"seg_panic\": {}, \"lay_cases\": {}, \"lay_rejected\": {}, \"canon_cases\": {}, \"canon_words\": {}, \
          \"canon_negative_words\": {}, \"ep_cases\": {}, \"ver_cases\": {}, \"coq_full_classes\": {}, \
-         \"distinct_cases\": {}, \"oracle_failures\": {}, \"panic_samples\": {}, \"source_compiled\": {}, \"source_equals_checked_in_class\": {}, \"source_error\": {:?}, \"err_kinds\": {{{}}}, \"variation_kinds\": {{{}}}}}",
+         \"distinct_cases\": {}, \"oracle_failures\": {}, \"panic_samples\": {}, \"source_compiled\": {}, \"source_equals_checked_in_class\": {}, \"source_error\": {:?}, \"generated_contracts\": {}, \"generated_entry_points\": {}, \"generated_l1_handlers\": {}, \"generated_stable_recompilations\": {}, \"err_kinds\": {{{}}}, \"variation_kinds\": {{{}}}}}",
         stats.classes,
         stats.impl_runs,
         stats.ok_runs,
@@ -263,6 +422,10 @@ fn main() {
         stats.source_compiled,
         stats.source_equals_golden,
         stats.source_error,
+        stats.gen_contracts,
+        stats.gen_entry_points,
+        stats.gen_l1_handlers,
+        stats.gen_stable_recompilations,
         stats.err_kinds.iter().map(|(k, v)| format!("\"{k}\": {v}")).collect::<Vec<_>>().join(", "),
         stats.variation_kinds.iter().map(|(k, v)| format!("\"{k}\": {v}")).collect::<Vec<_>>().join(", "),
     )
